@@ -323,6 +323,8 @@ func ecdsaReferenceAgreement(p *Prog, r *Report, R6 string) {
 		}
 		r.Check(ok, R6, "hashToInt == GOROOT crypto/ecdsa.hashToInt", p.Pos(token.NoPos)+"ecdsa/"+fork.fileOf["hashToInt"], good, "digest-to-integer conversion differs from the standard library's: "+diff)
 	}
+	astHelpers = fork.funcs
+	defer func() { astHelpers = nil }()
 	embed := func(forkName, refName, from string, minStmts int) {
 		ff, rf := fork.funcs[forkName], ref.funcs[refName]
 		key := forkName + " embeds the core of GOROOT " + refName
